@@ -71,3 +71,31 @@ Proof.
   split; [vm_compute; reflexivity|]. split; [vm_compute; reflexivity|].
   cbn. repeat split; try lia; intros p H; inversion H; try lia.
 Qed.
+
+(* ---- the table is CLOSED over Go's binary operators ---------------------------------------------------
+   c05_table_order speaks about the operators of `binops`, the token alphabet of the Pratt theorems.  This
+   theorem makes sure nothing escapes that alphabet: every symbol of the table regenerated from symbol.go
+   that the Go specification lists as a binary operator (go_prec s > 0; &^ included) is one of `binops`
+   and is parsed by the generic infix led whose loop Model/Pratt.v transcribes (ledInfix), and conversely
+   every operator of `binops` is in the table with that led.  A new operator token with its own led or
+   level (e.g. a dedicated &^ at the additive level) breaks this obligation. *)
+Theorem c05_table_closed :
+  (forall s lbp nud led, In (s, (lbp, nud, led)) symbols -> 0 < go_prec s ->
+     In s binops /\ led = "ledInfix"%string) /\
+  (forall o, In o binops -> exists lbp nud, In (o, (lbp, nud, "ledInfix"%string)) symbols).
+Proof.
+  split.
+  - assert (H : forallb (fun e => let '(s, (lbp, nud, led)) := e in
+                  if 0 <? go_prec s then existsb (String.eqb s) binops && String.eqb led "ledInfix" else true) symbols = true)
+      by (vm_compute; reflexivity).
+    intros s lbp nud led Hin Hp. rewrite forallb_forall in H. specialize (H _ Hin). cbn beta iota zeta in H.
+    apply Z.ltb_lt in Hp. rewrite Hp in H. apply andb_true_iff in H. destruct H as [H1 H2].
+    split; [|apply String.eqb_eq; exact H2].
+    apply existsb_exists in H1. destruct H1 as (x & Hx & E). apply String.eqb_eq in E. subst x. exact Hx.
+  - assert (H : forallb (fun o => existsb (fun e => let '(s, (lbp, nud, led)) := e in String.eqb s o && String.eqb led "ledInfix") symbols) binops = true)
+      by (vm_compute; reflexivity).
+    intros o Ho. rewrite forallb_forall in H. specialize (H _ Ho). apply existsb_exists in H.
+    destruct H as ([s [[lbp nud] led]] & Hin & E). apply andb_true_iff in E. destruct E as [E1 E2].
+    apply String.eqb_eq in E1. apply String.eqb_eq in E2. subst. exists lbp, nud. exact Hin.
+Qed.
+Print Assumptions c05_table_closed.
